@@ -67,6 +67,7 @@ func C15(e *core.Env) int {
 		convs   []*c15Conv
 		invoke  string // root sub cwdflag
 		conflict bool
+		globalFile bool
 	}
 	var scens []scen
 	for i := 0; i < n; i++ {
@@ -92,6 +93,23 @@ func C15(e *core.Env) int {
 			if r.Intn(3) == 0 {
 				s.conflict = true
 			}
+		}
+		if i%7 == 5 {
+			// a CLI-level output:file applies to every converter relative to its own declaring file; the packages
+			// already at those locations have names that differ from their directory
+			s.globalFile = true
+			s.conflict = false
+			seenDir := map[string]bool{}
+			var keep []*c15Conv
+			for k, c := range s.convs {
+				c.fileForm, c.pkgForm, c.vars = "global", "absent", false
+				c.existing = []string{"alphapkg", "betapkg", "gammapkg", "deltapkg"}[k%4]
+				if !seenDir[c.pkgDir] {
+					seenDir[c.pkgDir] = true
+					keep = append(keep, c)
+				}
+			}
+			s.convs = keep
 		}
 		scens = append(scens, s)
 	}
@@ -171,6 +189,8 @@ func C15(e *core.Env) int {
 			case "cwd":
 				setting = "@cwd/cwdout/" + fname + ".go"
 				c.outPath = filepath.Join(workdir, "cwdout", fname+".go")
+			case "global":
+				c.outPath = filepath.Join(declDir, "out", "gen.go")
 			case "same":
 				setting = "./" + fname + "_gen.go"
 				c.outPath = filepath.Join(declDir, fname+"_gen.go")
@@ -278,6 +298,9 @@ func C15(e *core.Env) int {
 		if cliPkg != "" {
 			// insert the global setting after "gen"
 			args = append([]string{args[0], "-g", cliPkg}, args[1:]...)
+		}
+		if s.globalFile {
+			args = append([]string{args[0], "-global", "output:file ./out/gen.go"}, args[1:]...)
 		}
 		before := core.SnapshotTree(dir)
 		cli, evs, err := core.RunStraced(bin, args, core.RunOpts{Dir: procdir, Env: e.GoEnv(), Timeout: 2 * time.Minute}, dir, nil)
